@@ -172,7 +172,7 @@ func checkC20(c *core.Ctx, l *core.Ledger) {
 			if !ok {
 				return
 			}
-			if fa, ok := st.Addr.(*ssa.FieldAddr); ok && core.FieldOf(fa) != nil && core.FieldOf(fa).Name() == "lints" {
+			if fa, ok := st.Addr.(*ssa.FieldAddr); ok && core.FieldOf(fa) != nil && core.FieldName(core.FieldOf(fa)) == "lints" {
 				isReport := f.Name() == "Report" && recvNamed(f) == "Pass"
 				if _, isAlloc := fa.X.(*ssa.Alloc); isAlloc && !isReport {
 					return
@@ -376,7 +376,7 @@ func checkC20(c *core.Ctx, l *core.Ledger) {
 								for _, rr := range *ia.Referrers() {
 									if st, ok := rr.(*ssa.Store); ok {
 										if fld, _ := core.LoadedField(st.Val); fld != nil {
-											rootField = fld.Name()
+											rootField = core.FieldName(fld)
 										}
 									}
 								}
@@ -401,9 +401,9 @@ func checkC20(c *core.Ctx, l *core.Ledger) {
 			}
 			owner := core.TypeLabel(fa.X.Type())
 			switch {
-			case fld.Name() == "GitDir" && strings.HasSuffix(owner, "compare.Pass"):
+			case core.FieldName(fld) == "GitDir" && strings.HasSuffix(owner, "compare.Pass"):
 				gitDirs = append(gitDirs, core.Sym(st.Val))
-			case rootField != "" && fld.Name() == rootField && strings.HasSuffix(owner, "git.FS"):
+			case rootField != "" && core.FieldName(fld) == rootField && strings.HasSuffix(owner, "git.FS"):
 				roots = append(roots, core.Sym(st.Val))
 			}
 		})
